@@ -229,7 +229,7 @@ func isByteReaderIface(t types.Type) bool {
 }
 
 func ruleR05_1(p *Program, r *Report) {
-	r.Expect("R05.1", 10)
+	r.Expect("R05.1", 6)
 	for _, rel := range readerPkgs() {
 		sp := p.Pkg(rel)
 		if sp == nil {
@@ -537,11 +537,15 @@ func ruleR11_2(p *Program, r *Report) {
 			if f.Y == nil {
 				continue
 			}
-			if f.Op == token.EQL {
+			{
 				_, s1, ok1 := fieldLoad(f.X)
 				_, s2, ok2 := fieldLoad(f.Y)
-				if ok1 && ok2 && ((s1 == ".writePos" && s2 == ".readPos") || (s1 == ".readPos" && s2 == ".writePos")) {
-					return true
+				if ok1 && ok2 {
+					wr := s1 == ".writePos" && s2 == ".readPos"
+					rw := s1 == ".readPos" && s2 == ".writePos"
+					if (f.Op == token.EQL && (wr || rw)) || (f.Op == token.LEQ && wr) || (f.Op == token.GEQ && rw) {
+						return true
+					}
 				}
 			}
 			if f.Op == token.LEQ || f.Op == token.EQL {
